@@ -1337,3 +1337,45 @@ def closure_true_implies(body, rel, is_a, is_b):
     if not seen:
         return False, "never returns true through the comparison"
     return True, "ok"
+
+
+def root_defs(body, op, depth=0, seen=None):
+    """the defining rvalues a value can come from, following only plain copies / moves (no calls, no adapters):
+    [('bin', opname, (bi, si)) | ('const', repr) | ('call', callee, bi) | ('agg', what, (bi, si)) | ('arg', local) | ('other', kind, (bi, si))].
+    Flow-insensitive over the definitions of each local: every assignment counts, so a value assigned on one branch as x + 1
+    and on another as x has two roots."""
+    if seen is None:
+        seen = set()
+    if op.get("k") == "const":
+        return [("const", const_repr(op))]
+    if op.get("k") not in ("copy", "move"):
+        return [("other", op.get("k"), None)]
+    pl = op["pl"]
+    l = pl["l"]
+    proj = tuple(_proj_key(pl.get("p")))
+    if (l, proj) in seen or depth > 12:
+        return []
+    seen.add((l, proj))
+    out = []
+    ds = body.defs().get(l, [])
+    if not ds:
+        return [("arg", l)]
+    for (bi, si, k, pay) in ds:
+        if k == "call":
+            out.append(("call", pay["callee"], bi))
+            continue
+        if k != "assign":
+            out.append(("other", k, (bi, si)))
+            continue
+        if pay["lhs"].get("p"):
+            continue  # partial store into the local; not a definition of the value read through `proj`
+        rv = pay["rv"]
+        if rv["k"] == "use":
+            out += root_defs(body, rv["o"], depth + 1, seen)
+        elif rv["k"] == "bin":
+            out.append(("bin", rv["op"], (bi, si)))
+        elif rv["k"] == "agg":
+            out.append(("agg", rv.get("adt") or rv.get("ak"), (bi, si)))
+        else:
+            out.append(("other", rv["k"], (bi, si)))
+    return out
